@@ -122,8 +122,38 @@ def _probe(base):
     return out
 
 
+def probe_findings(chk):
+    """Re-runs the witness of every open finding so that its KNOWN-FINDING line does not depend on which walks were sampled."""
+    over = {'R_z': 12.5, 'P_A': 0.23, 'R_m': 400.0}
+    for f in findings.load('C10'):
+        try:
+            m = f.get('match')
+            msg = '%s: %s' % (f['id'], f['symptom'])
+            if m == 'praj_batch':
+                seq = [0.35 * v for v in BASES[2]]
+                alone = assess.assess(seq, (1.0,), over, single=True)[0][0]['raj']
+                batch = assess.assess(seq, (1.0, 3.0), over)[0][0]['raj']
+                if abs(mlog(alone) - mlog(batch)) > 2:
+                    chk.known.append(msg)
+            elif m == 'pram_class_edge':
+                seq = BASES[1]
+                alone = assess.assess([0.5 * v for v in seq], (1.0,), {'R_z': 25.0, 'P_A': 7.2e-5, 'R_m': 600.0}, single=True)[0][0]['ram']
+                batch = assess.assess(seq, (1.0, 0.5), {'R_z': 25.0, 'P_A': 7.2e-5, 'R_m': 600.0})[0][1]['ram']
+                if abs(mlog(alone) - mlog(batch)) > 2:
+                    chk.known.append(msg)
+            elif m == 'praj_nonmonotone':
+                a = assess.assess(BASES[3], (1.0,), {'R_z': 12.5, 'P_A': 1e-5, 'R_m': 400.0}, single=True)[0][0]['raj']
+                b = assess.assess(BASES[3], (1.0,), {'R_z': 50.0, 'P_A': 1e-5, 'R_m': 400.0}, single=True)[0][0]['raj']
+                if mlog(b) > mlog(a) + 2:
+                    chk.known.append(msg)
+            chk.evals(2)
+        except Exception as ex:
+            chk.machinery.append('probe of finding %s failed: %r' % (f.get('id'), ex))
+
+
 def run(chk):
     quick = chk.tier == 'quick'
+    probe_findings(chk)
     cfgname = 'MC_Assessment_quick.cfg' if quick else 'MC_Assessment_thorough.cfg'
     res = tlc.run(TLA, os.path.join(SPEC, 'assessment', cfgname), dump=True, timeout=3000, heap='12g')
     chk.tlc(cfgname, res, 'configuration graph of the metamorphic actions; every state is one walk (hist)')
@@ -215,6 +245,10 @@ def run(chk):
                 if cand.get('match') == 'praj_batch' and clause.startswith('P_RAJ') and \
                         (len(detail[gstep]['config']['ratios']) > 1 or len(detail[gstep - 1]['config']['ratios']) > 1):
                     f = cand
+                if cand.get('match') == 'praj_nonmonotone' and clause == 'P_RAJ_lifetime_increased':
+                    o_, n_ = (tr['start'] if steps == 1 else tr['events'][steps - 2]['obs']), tr['events'][steps - 1]['obs']
+                    if INF not in (o_['raj'], n_['raj']) and n_['raj'] - o_['raj'] <= cand.get('max_increase_micro', 0):
+                        f = cand
                 if cand.get('match') == 'pram_class_edge' and clause == 'P_RAM_lifetime_changed' and act[0] in ('AddPoint', 'DropPoint', 'MoveTracked') \
                         and (detail[gstep]['config']['tracked_position'] != 0 or detail[gstep - 1]['config']['tracked_position'] != 0):
                     f = cand
@@ -224,9 +258,9 @@ def run(chk):
                     chk.known.append(msg)
                 # the remainder of the walk is validated as a trace of its own, and the P_RAM part of the known step as well
                 o, n = (tr['start'] if steps == 1 else tr['events'][steps - 2]['obs']), tr['events'][steps - 1]['obs']
-                if f['match'] == 'praj_batch':
+                if f['match'] in ('praj_batch', 'praj_nonmonotone'):
                     first = detail[gstep]['config']['tracked_position'] == 0 and detail[gstep - 1]['config']['tracked_position'] == 0
-                    if act[2] == 'same' and first and (abs(o['ram'] - n['ram']) > 2 if INF not in (o['ram'], n['ram']) else o['ram'] != n['ram']):
+                    if f['match'] == 'praj_batch' and act[2] == 'same' and first and (abs(o['ram'] - n['ram']) > 2 if INF not in (o['ram'], n['ram']) else o['ram'] != n['ram']):
                         chk.violation('P_RAM lifetime of the (first) tracked point changed with the batch', case, None, None, part='trace')
                     if act[2] == 'notlarger' and not (o['ram'] == INF or (n['ram'] != INF and n['ram'] <= o['ram'] + 2)):
                         chk.violation('P_RAM lifetime increased (%s)' % act[0], case, None, None, part='trace')
